@@ -321,6 +321,8 @@ func drawSpec(t *rapid.T, timed bool) Spec {
 		TicketLife: rapid.SampledFrom([]string{"", "10m", "1h"}).Draw(t, "tlife"), Hops: rapid.SampledFrom([]int{0, 0, 0, 1, 1, 2, 3, 4, 5, 6, 8}).Draw(t, "hops"),
 		Via: rapid.SampledFrom([]string{"referral", "domain_realm"}).Draw(t, "via"), KDCs: rapid.IntRange(1, 3).Draw(t, "kdcs"), DupKDC: rapid.IntRange(0, 5).Draw(t, "dupkdc") == 0, Loop: rapid.IntRange(0, 3).Draw(t, "loop") == 0}
 	s.LegacyInfo = rapid.SampledFrom([]string{"", "", "", "after", "before"}).Draw(t, "legacy-info")
+	s.UDPFirst = rapid.IntRange(0, 2).Draw(t, "udp-first") == 0
+	s.BigTickets = rapid.SampledFrom([]int{0, 0, 0, 300, 1200, 2000, 2600}).Draw(t, "big-tickets")
 	n := rapid.IntRange(1, 3).Draw(t, "netypes")
 	pool := append([]int32{}, ref.ETypes...)
 	for i := 0; i < n; i++ {
@@ -552,7 +554,7 @@ func TestProp(t *testing.T) {
 							continue
 						}
 						et := []int32{ref.ETypes[(hops+pi+ci)%6], ref.ETypes[(hops+pi+ci+2)%6]}
-						enum = append(enum, Case{Spec: Spec{Seed: r.Seed()*131 + uint64(len(enum)), Cred: cred, ETypes: et, Preauth: pre, Salted: salted, Hops: hops, Via: via, LegacyInfo: []string{"", "after", "before"}[(len(enum)+hops)%3],
+						enum = append(enum, Case{Spec: Spec{Seed: r.Seed()*131 + uint64(len(enum)), Cred: cred, ETypes: et, Preauth: pre, Salted: salted, Hops: hops, Via: via, LegacyInfo: []string{"", "after", "before"}[(len(enum)+hops)%3], UDPFirst: len(enum)%3 == 1, BigTickets: []int{0, 1200, 2400, 0}[len(enum)%4],
 							Loop: hops >= 1 && hops <= 3 && via == "referral", Params: (hops+pi)%2 == 0, Fwd: hops%2 == 0, Canon: pi%2 == 0, NoAddr: ci == 0, RenewLife: []string{"", "10m", "7d"}[(hops+pi)%3], TicketLife: []string{"", "10m", "1h"}[(hops+ci)%3], KDCs: 1 + hops%3},
 							Ops: []Op{{K: "login"}, {K: "ticket", SPN: 0}, {K: "ticket", SPN: 0}, {K: "ticket", SPN: 5}, {K: "ticket", SPN: 3}, {K: "ticket", SPN: 1}, {K: "cached", SPN: 0}, {K: "cached", SPN: 5}, {K: "ticket", SPN: 4}, {K: "ticket", SPN: 2}}})
 					}
